@@ -157,9 +157,17 @@ func (t *TyGen) GenType(depth int) reflect.Type {
 		return reflect.SliceOf(t.GenType(depth - 1))
 	case k == 8:
 		t.feature("array")
-		n := t.r.Intn(4)
+		n := t.r.Intn(7)
 		if n == 0 {
 			t.feature("zero-length-array")
+		}
+		if t.r.P(1, 2) {
+			// arrays of elements that can be nil: each nil must keep its own position
+			// (seeded change C04A3: a null element did not advance the array builder's index)
+			t.feature("array-of-nullable")
+			el := []reflect.Type{reflect.PtrTo(numericKinds[t.r.Intn(len(numericKinds))]), reflect.SliceOf(tyString),
+				reflect.MapOf(tyString, numericKinds[t.r.Intn(len(numericKinds))]), reflect.PtrTo(tyString)}[t.r.Intn(4)]
+			return reflect.ArrayOf(n, el)
 		}
 		return reflect.ArrayOf(n, t.GenType(depth-1))
 	case k <= 10:
@@ -361,7 +369,18 @@ func (t *TyGen) GenValue(ty reflect.Type, depth int) reflect.Value {
 		}
 		v.Set(s)
 	case reflect.Array:
+		nilPattern := false
+		switch ty.Elem().Kind() {
+		case reflect.Ptr, reflect.Slice, reflect.Map:
+			nilPattern = t.r.P(1, 2)
+		}
 		for i := 0; i < ty.Len(); i++ {
+			if nilPattern && t.r.P(1, 2) {
+				if ty.Elem().Kind() != reflect.Ptr {
+					t.feature("nil-container")
+				}
+				continue // stays nil
+			}
 			v.Index(i).Set(t.GenValue(ty.Elem(), depth-1))
 		}
 	case reflect.Map:
